@@ -543,6 +543,7 @@ class Interp:
         self._loops = {}
         self.cmp_oracle = None
         self.widen_at = 2
+        self.concrete_ranges = False  # opt-in: exact unrolling of `for i in a..b` with constant bounds
 
     # ------------------------------------------------------------ loops (A2)
     def loops_of(self, body):
@@ -1061,7 +1062,7 @@ class Interp:
                         path.facts = {k: v for k, v in path.facts.items() if not _mentions_top(k)}
                     else:
                         return  # covered by the widened iteration
-                elif n > self.loop_bound + 1:
+                elif n > self.loop_bound + 1 and not any(bb in l_["nodes"] for l_ in loops.values()):
                     yield Outcome("cut", None, path, site=F.site_str(body, blocks[bb]["term"]["sp"]),
                                   msg="loop-bound", stack=frame.stack())
                     return
@@ -1433,6 +1434,21 @@ class Interp:
                 return self._multi(path, frame, t, [(W(LEN(inner), 64), path)], depth)
             if v[0] != "ref":
                 return self._multi(path, frame, t, [(W(LEN(v), 64), path)], depth)
+        # --- concrete Range iteration (for i in a..b with constant bounds)
+        if self.concrete_ranges and name.endswith("::next") and "Iterator" in (t["f"].get("def") or "") \
+                and "std::ops::Range<" in " ".join(t["f"].get("gargs", [])):
+            rv_ = args[0]
+            if rv_[0] == "ref":
+                cur = self.read_loc(path, rv_[1])
+                if cur[0] == "agg" and cur[1] == "adt:std::ops::Range" and len(cur[3]) == 2 and is_int(cur[3][0]) and is_int(cur[3][1]):
+                    st_, en_ = cur[3]
+                    if to_signed(st_[1], st_[2]) < to_signed(en_[1], en_[2]):
+                        self.write_loc(path, rv_[1], ("agg", cur[1], cur[2], (INT(st_[1] + 1, st_[2]), en_)))
+                        return self._multi(path, frame, t, [(SOME(st_), path)], depth)
+                    return self._multi(path, frame, t, [(NONE, path)], depth)
+        if self.concrete_ranges and name.endswith("::into_iter") and len(args) == 1 and args[0][0] == "agg" \
+                and args[0][1] == "adt:std::ops::Range":
+            return self._multi(path, frame, t, [(args[0], path)], depth)
         # --- PartialEq on references
         if name.endswith("::eq") or name.endswith("::ne"):
             if len(args) == 2:
